@@ -33,6 +33,9 @@ type family struct {
 }
 
 type mcase struct {
+	// EVMProg: (C02 only) a C17 gadget program run in C17's family EVMFam, judged by the total-value invariant
+	EVMProg []int `json:"evmProg,omitempty"`
+	EVMFam  int   `json:"evmFam,omitempty"`
 	Fam     int   `json:"fam"`
 	Devs    []dev `json:"devs"`
 	Restart int64 `json:"restart,omitempty"`
@@ -47,6 +50,7 @@ type modelCheck struct {
 	meta     engine.Meta
 	extra    func(mc *modelCheck, mr *modelRun, h sim.History, res *engine.Result) []refmodel.Finding
 	guards   func(a *engine.Agg) []string
+	evmSum   bool // add the EVM total-value cases (C02)
 
 	tier  string
 	cases []mcase
@@ -122,6 +126,19 @@ func (c *modelCheck) Prepare(tier string, seed int64) error {
 			}
 		}
 	}
+	if c.evmSum {
+		gs := c17Gadgets()
+		for a := range gs {
+			for fam := 0; fam < 3; fam++ {
+				c.cases = append(c.cases, mcase{EVMProg: []int{a}, EVMFam: fam, Fam: -1, Lv: 1})
+			}
+			if !gs[a].Term {
+				for b := range gs {
+					c.cases = append(c.cases, mcase{EVMProg: []int{a, b}, EVMFam: (a + b) % 3, Fam: -1, Lv: 2})
+				}
+			}
+		}
+	}
 	var out []mcase
 	for lv := 0; lv <= 4; lv++ {
 		for _, x := range c.cases {
@@ -157,6 +174,9 @@ func (c *modelCheck) RunDesc(desc json.RawMessage) engine.Result {
 	_ = json.Unmarshal(desc, &cs)
 	if c.slots == nil {
 		c.build()
+	}
+	if cs.Fam < 0 {
+		return c.runEVMSum(cs, desc)
 	}
 	res := engine.Result{}
 	ss := c.slots[cs.Fam]
@@ -266,4 +286,30 @@ func tailOf(l []string, n int) []string {
 		return l[len(l)-n:]
 	}
 	return l
+}
+
+// runEVMSum: a contract program (C17's alphabet and history families, incl. value-forwarding calls, nested reverts,
+// CREATE, SELFDESTRUCT) judged by the total-value invariant only: at every height the implementation's
+// balances + bonded + unbonding equal the reference's (native model + reference EVM world, which accounts burns by
+// EVM definition such as a self-destruct into itself).
+func (c *modelCheck) runEVMSum(cs mcase, desc json.RawMessage) engine.Result {
+	res, _, _, names, mr := c17Run(c17Case{Prog: cs.EVMProg, Family: cs.EVMFam})
+	if mr != nil && mr.Res != nil {
+		defer mr.Res.Cleanup()
+	}
+	if res.Err != "" {
+		return res
+	}
+	res.Violations = nil
+	for i := range mr.Totals {
+		if i < len(mr.ModelTotals) && mr.Totals[i].Cmp(mr.ModelTotals[i]) != 0 {
+			res.Violations = append(res.Violations, engine.Violation{Property: c.id, Kind: "value-not-conserved", Site: "evm-program-sum",
+				Detail: fmt.Sprintf("height %d: balances+bonded+unbonding of the node = %s, of the reference (native model + reference EVM) = %s (difference %s)\n program [%s] in EVM family %d",
+					i+1, mr.Totals[i], mr.ModelTotals[i], new(big.Int).Sub(mr.Totals[i], mr.ModelTotals[i]), strings.Join(names, " ; "), cs.EVMFam), Case: desc})
+			break
+		}
+	}
+	res.Count("evm_sum_cases", 1)
+	res.Nontrivial = mr.TxOK > 0 && mr.TxFail > 0
+	return res
 }
